@@ -684,4 +684,793 @@ theorem toUtc_instant (dt c : Civil) (off : Int) (h : toUtc ⟨dt, some off⟩ =
 
 theorem toUtc_naive (dt : Civil) : toUtc ⟨dt, none⟩ = some dt := rfl
 
+/-! ### reading a `Set-Cookie` value back: split at `"; "`, then each piece at its first `=` -/
+/-- `line.split('; ')` -/
+def splitSS : Str → List Str
+  | [] => [[]]
+  | ';' :: ' ' :: r => [] :: splitSS r
+  | x :: r =>
+    match splitSS r with
+    | h :: t => (x :: h) :: t
+    | [] => [[x]]
+
+/-- (cookie name, coded value, attributes as (name, value | flag)) -/
+def parseLine (line : Str) : Str × Option Str × List (Str × Option Str) :=
+  match splitSS line with
+  | [] => ([], none, [])
+  | p :: ps => ((Hp.breakOn '=' p).1, (Hp.breakOn '=' p).2, ps.map (Hp.breakOn '='))
+
+/-- the cookie-pair a user agent stores and sends back: the text before the first `"; "` -/
+def cookiePair (line : Str) : Str := (splitSS line).headD []
+
+theorem splitSS_cons_ne (x : Char) (r : Str) (h : x ≠ ';') :
+    splitSS (x :: r) = match splitSS r with | h :: t => (x :: h) :: t | [] => [[x]] := by
+  rw [splitSS.eq_def]
+  split
+  · rename_i e; simp at e
+  · rename_i e; simp at e; exact absurd e.1 h
+  · rename_i e; simp at e; obtain ⟨rfl, rfl⟩ := e; rfl
+
+theorem splitSS_none : ∀ (a : Str), ';' ∉ a → splitSS a = [a]
+  | [], _ => rfl
+  | x :: a, h => by
+    have hx : x ≠ ';' := fun e => h (by simp [e])
+    rw [splitSS_cons_ne x a hx, splitSS_none a (fun e => h (by simp [e]))]
+
+theorem splitSS_append : ∀ (a rest : Str), ';' ∉ a → splitSS (a ++ ';' :: ' ' :: rest) = a :: splitSS rest
+  | [], rest, _ => by simp [splitSS]
+  | x :: a, rest, h => by
+    have hx : x ≠ ';' := fun e => h (by simp [e])
+    rw [List.cons_append, splitSS_cons_ne x _ hx, splitSS_append a rest (fun e => h (by simp [e]))]
+
+/-- the first piece is recovered whatever follows it -/
+theorem cookiePair_joinSS (p : Str) (ps : List Str) (hp : ';' ∉ p) : cookiePair (joinSS (p :: ps)) = p := by
+  unfold cookiePair
+  cases ps with
+  | nil => simp [joinSS, splitSS_none p hp]
+  | cons q r => simp only [joinSS]; rw [splitSS_append p _ hp]; rfl
+
+theorem splitSS_joinSS : ∀ (ps : List Str), ps ≠ [] → (∀ p ∈ ps, ';' ∉ p) → splitSS (joinSS ps) = ps
+  | [], h, _ => absurd rfl h
+  | [p], _, hv => by simp [joinSS, splitSS_none p (hv p (by simp))]
+  | p :: q :: ps, _, hv => by
+    simp only [joinSS]
+    rw [splitSS_append p _ (hv p (by simp)), splitSS_joinSS (q :: ps) (by simp) (fun x hx => hv x (by simp [hx]))]
+
+/-! ### the attributes of a morsel -/
+def flagA (k : Str) (b : Bool) : List (Str × Option Str) := if b then [(k, none)] else []
+def strA (k v : Str) : List (Str × Option Str) := if v.isEmpty then [] else [(k, some v)]
+def optA {α : Type} (k : Str) (f : α → Str) (o : Option α) : List (Str × Option Str) :=
+  match o with
+  | none => []
+  | some a => [(k, some (f a))]
+
+def expA (t : Nat) : ExpVal → List (Str × Option Str)
+  | .unset => []
+  | .text s => strA kExpires s
+  | .rel secs => [(kExpires, some (getdate ((t : Int) + secs).toNat))]
+
+/-- what `OutputString` writes after the cookie-pair, as data -/
+def morselAttrs (t : Nat) (m : Morsel) : List (Str × Option Str) :=
+  strA kDomain m.domain ++ expA t m.expires ++ flagA kHttpOnly m.httponly ++ optA kMaxAge intDec m.maxAge ++
+  flagA kPartitioned m.partitioned ++ strA kPath m.path ++ strA kSameSite m.samesite ++ flagA kSecure m.secure
+
+def renderAttr (a : Str × Option Str) : Str :=
+  match a.2 with
+  | none => a.1
+  | some v => kv a.1 v
+
+theorem attrPieces_eq (t : Nat) (m : Morsel) : attrPieces t m = (morselAttrs t m).map renderAttr := by
+  unfold attrPieces morselAttrs
+  simp only [List.map_append]
+  congr 1; congr 1; congr 1; congr 1; congr 1; congr 1; congr 1
+  · unfold strA; split <;> rfl
+  · cases m.expires with
+    | unset => rfl
+    | text s => simp only [expA, strA]; split <;> rfl
+    | rel n => rfl
+  · unfold flagA; split <;> rfl
+  · unfold optA; cases m.maxAge <;> rfl
+  · unfold flagA; split <;> rfl
+  · unfold strA; split <;> rfl
+  · unfold strA; split <;> rfl
+  · unfold flagA; split <;> rfl
+
+def allKeys : List Str := [kDomain, kExpires, kHttpOnly, kMaxAge, kPartitioned, kPath, kSameSite, kSecure]
+
+theorem allKeys_clean : ∀ k ∈ allKeys, ';' ∉ k ∧ '=' ∉ k := by decide
+
+/-- the attribute names of a line are a sub-sequence of the eight names, in that order: none twice, no other -/
+theorem morsel_keys_sublist (t : Nat) (m : Morsel) : ((morselAttrs t m).map (·.1)).Sublist allKeys := by
+  unfold morselAttrs allKeys
+  simp only [List.map_append]
+  have hs : ∀ (k v : Str), ((strA k v).map (·.1)).Sublist [k] := by intro k v; unfold strA; split <;> simp
+  have hf : ∀ (k : Str) (b : Bool), ((flagA k b).map (·.1)).Sublist [k] := by intro k b; unfold flagA; split <;> simp
+  have ho : ∀ {α : Type} (k : Str) (f : α → Str) (x : Option α), ((optA k f x).map (·.1)).Sublist [k] := by
+    intro α k f x; cases x <;> simp [optA]
+  have he : ((expA t m.expires).map (·.1)).Sublist [kExpires] := by
+    cases m.expires with
+    | unset => simp [expA]
+    | text s => exact hs _ _
+    | rel n => simp [expA]
+  exact ((((((((hs _ _).append he).append (hf _ _)).append (ho _ _ _)).append (hf _ _)).append (hs _ _)).append (hs _ _)).append (hf _ _))
+
+theorem morsel_key_mem (t : Nat) (m : Morsel) : ∀ a ∈ morselAttrs t m, a.1 ∈ allKeys := by
+  intro a ha
+  exact (morsel_keys_sublist t m).subset (List.mem_map_of_mem (f := (·.1)) ha)
+
+theorem breakOn_renderAttr (a : Str × Option Str) (h : '=' ∉ a.1) : Hp.breakOn '=' (renderAttr a) = a := by
+  obtain ⟨k, v⟩ := a
+  cases v with
+  | none => exact Hp.breakOn_none '=' k h
+  | some v => exact Hp.breakOn_append '=' k v h
+
+theorem kv_clean {k v : Str} (hk : ';' ∉ k) (hv : ';' ∉ v) : ';' ∉ kv k v := by
+  unfold kv; intro e
+  rcases List.mem_append.mp e with e | e
+  · exact hk e
+  · rcases List.mem_cons.mp e with e | e
+    · exact absurd e (by decide)
+    · exact hv e
+
+theorem not_semi_of_dateChars {v : Str} (h : ∀ x ∈ v, isDateChar x = true) : ';' ∉ v :=
+  fun e => (dateChar_ne_semi (h _ e)).1 rfl
+
+theorem pad4_dateChars (n : Nat) : ∀ c ∈ pad4 n, isDateChar c = true := by
+  intro c hc
+  unfold pad4 at hc
+  rcases List.mem_append.mp hc with hc | hc
+  · rw [List.mem_replicate] at hc; rw [hc.2]; decide
+  · exact natDec_dateChars n c hc
+
+theorem getdate_dateChars (t : Nat) : ∀ x ∈ getdate t, isDateChar x = true := by
+  intro x hx
+  have hw := wdName_dateChars (weekdayOfOrd (719163 + t / 86400))
+  simp only [List.all_eq_true] at hw
+  unfold getdate at hx
+  rcases List.mem_append.mp hx with hx | hx
+  · exact hw x hx
+  · exact dateTail_dateChars _ _ (pad4_dateChars _) x hx
+
+/-- no attribute contains the separator when Domain, Path, SameSite and a textual expires do not -/
+theorem morsel_clean (t : Nat) (m : Morsel) (hd : ';' ∉ m.domain) (hp : ';' ∉ m.path) (hs : ';' ∉ m.samesite)
+    (he : ∀ s, m.expires = .text s → ';' ∉ s) : ∀ a ∈ morselAttrs t m, ';' ∉ renderAttr a := by
+  intro a ha
+  have hstr : ∀ (k v : Str), ';' ∉ k → ';' ∉ v → a ∈ strA k v → ';' ∉ renderAttr a := by
+    intro k v hk hv h; unfold strA at h; split at h
+    · simp at h
+    · simp only [List.mem_cons, List.not_mem_nil, or_false] at h; subst h; exact kv_clean hk hv
+  have hflag : ∀ (k : Str) (b : Bool), ';' ∉ k → a ∈ flagA k b → ';' ∉ renderAttr a := by
+    intro k b hk h; unfold flagA at h; split at h
+    · simp only [List.mem_cons, List.not_mem_nil, or_false] at h; subst h; exact hk
+    · simp at h
+  unfold morselAttrs at ha
+  simp only [List.mem_append] at ha
+  rcases ha with ((((((ha | ha) | ha) | ha) | ha) | ha) | ha) | ha
+  · exact hstr _ _ (by decide) hd ha
+  · cases hc : m.expires with
+    | unset => rw [hc] at ha; simp [expA] at ha
+    | text s => rw [hc] at ha; exact hstr _ _ (by decide) (he s hc) ha
+    | rel n =>
+      rw [hc] at ha; simp only [expA, List.mem_cons, List.not_mem_nil, or_false] at ha; subst ha
+      exact kv_clean (by decide : ';' ∉ kExpires) (not_semi_of_dateChars (getdate_dateChars _))
+  · exact hflag _ _ (by decide) ha
+  · unfold optA at ha
+    cases hc : m.maxAge with
+    | none => rw [hc] at ha; simp at ha
+    | some n =>
+      rw [hc] at ha; simp only [List.mem_cons, List.not_mem_nil, or_false] at ha; subst ha
+      exact kv_clean (by decide : ';' ∉ kMaxAge) (not_semi_of_dateChars (intDec_dateChars n))
+  · exact hflag _ _ (by decide) ha
+  · exact hstr _ _ (by decide) hp ha
+  · exact hstr _ _ (by decide) hs ha
+  · exact hflag _ _ (by decide) ha
+
+/-- **`OutputString` can be read back**: splitting the line at `"; "` and each piece at its first `=` returns the key, the coded
+    value and the attribute list – nothing bleeds from one attribute into another -/
+theorem parse_output (t : Nat) (m : Morsel) (hk1 : ';' ∉ m.key) (hk2 : '=' ∉ m.key) (hc : ';' ∉ m.coded)
+    (hclean : ∀ a ∈ morselAttrs t m, ';' ∉ renderAttr a) :
+    parseLine (outputString t m) = (m.key, some m.coded, morselAttrs t m) := by
+  unfold outputString parseLine
+  rw [attrPieces_eq, splitSS_joinSS _ (by simp)]
+  · simp only [kv, Hp.breakOn_append '=' m.key _ hk2, List.map_map]
+    congr 2
+    rw [List.map_congr_left (g := id)]
+    · simp
+    · intro a ha2
+      have := (allKeys_clean _ (morsel_key_mem t m a ha2)).2
+      simp only [Function.comp, id]
+      exact breakOn_renderAttr a this
+  · intro p hp2
+    rcases List.mem_cons.mp hp2 with hp2 | hp2
+    · subst hp2; exact kv_clean hk1 hc
+    · obtain ⟨a, ha2, rfl⟩ := List.mem_map.mp hp2
+      exact hclean a ha2
+
+theorem cookiePair_output (t : Nat) (m : Morsel) (hk1 : ';' ∉ m.key) (hc : ';' ∉ m.coded) :
+    cookiePair (outputString t m) = kv m.key m.coded := by
+  unfold outputString; exact cookiePair_joinSS _ _ (kv_clean hk1 hc)
+
+/-! ### acceptance -/
+/-- the calls that do not raise -/
+def accepts (s : CookieSpec) : Bool := nameOk s.name && isAscii s.value && expOk s && maOk s && ssOk s
+
+theorem setCookie_accepts {o : Opts} {s : CookieSpec} (h : accepts s = true) : setCookie o s = (.put (finalMorsel o s), none) := by
+  simp only [accepts, nameOk, Bool.and_eq_true, Bool.not_eq_true'] at h
+  obtain ⟨⟨⟨⟨⟨⟨⟨h1, h2⟩, h3⟩, h4⟩, h5⟩, h6⟩, h7⟩, h8⟩ := h
+  rw [setCookie_spec]
+  simp only [h1, h2, h3, h4, h5, h6, h7, h8, Bool.not_true, Bool.false_eq_true, if_false]
+
+theorem setCookie_rejects {o : Opts} {s : CookieSpec} (h : accepts s = false) : ∃ e, (setCookie o s).2 = some e := by
+  rw [setCookie_spec]
+  cases h1 : isAscii s.name with
+  | false => exact ⟨_, rfl⟩
+  | true =>
+  cases h2 : s.name.contains ':' with
+  | true => exact ⟨_, rfl⟩
+  | false =>
+  cases h3 : isAscii s.value with
+  | false => exact ⟨_, rfl⟩
+  | true =>
+  cases h4 : reservedKeys.contains (lower s.name) with
+  | true => exact ⟨_, rfl⟩
+  | false =>
+  cases h5 : isLegalKey s.name with
+  | false => exact ⟨_, rfl⟩
+  | true =>
+  cases h6 : expOk s with
+  | false => exact ⟨_, rfl⟩
+  | true =>
+  cases h7 : maOk s with
+  | false => exact ⟨_, rfl⟩
+  | true =>
+  cases h8 : ssOk s with
+  | false => exact ⟨_, rfl⟩
+  | true => rw [accepts, nameOk, h1, h2, h3, h4, h5, h6, h7, h8] at h; exact absurd h (by decide)
+
+/-- `set_cookie` returns normally exactly for the accepted calls, and then the line is the rendering of `finalMorsel` -/
+theorem setCookieLine_ok_iff (o : Opts) (s : CookieSpec) (line : Str) :
+    setCookieLine o s = .ok line ↔ (accepts s = true ∧ line = outputString 0 (finalMorsel o s)) := by
+  cases ha : accepts s with
+  | true =>
+    unfold setCookieLine; rw [setCookie_accepts ha]
+    simp only [Except.ok.injEq, true_and]
+    exact ⟨fun h => h.symm, fun h => h.symm⟩
+  | false =>
+    obtain ⟨e, he⟩ := setCookie_rejects (o := o) ha
+    unfold setCookieLine
+    have : setCookie o s = ((setCookie o s).1, some e) := by rw [← he]
+    rw [this]
+    constructor
+    · intro h
+      generalize (setCookie o s).1 = j at h
+      cases j <;> simp at h
+    · intro h; exact absurd h.1 (by decide)
+
+/-! ### SameSite values -/
+theorem ssVal_mem {s : CookieSpec} (h : ssOk s = true) :
+    ssVal s = [] ∨ ssVal s = ['L', 'a', 'x'] ∨ ssVal s = ['S', 't', 'r', 'i', 'c', 't'] ∨ ssVal s = ['N', 'o', 'n', 'e'] := by
+  unfold ssOk at h
+  unfold ssVal
+  cases hs : s.sameSite with
+  | none => left; rfl
+  | some v =>
+    rw [hs] at h; simp only at h ⊢
+    cases hv : v.isEmpty with
+    | true => left; simp
+    | false =>
+      rw [hv] at h
+      simp only [Bool.false_or, sameSiteWords, List.contains_cons, List.contains_nil, Bool.or_false, Bool.or_eq_true, beq_iff_eq] at h
+      right
+      simp only [Bool.false_eq_true, if_false]
+      rcases h with h | h | h <;> rw [h]
+      · left; decide
+      · right; left; decide
+      · right; right; decide
+
+theorem ssVal_clean {s : CookieSpec} (h : ssOk s = true) : ';' ∉ ssVal s := by
+  rcases ssVal_mem h with e | e | e | e <;> rw [e] <;> decide
+
+/-! ### exactly the requested attributes -/
+/-- the attributes `set_cookie(**s)` asks for, in the order `OutputString` writes them (sorted by lower-cased key):
+    Domain / Path iff non-empty, expires iff given (the IMF-fixdate of its UTC time), HttpOnly iff `http_only`, Max-Age iff
+    `max_age is not None` (so also for 0) with the `int()` of it, Partitioned iff given, SameSite iff non-empty (capitalised),
+    Secure iff `secure`, or the option when `secure` is None -/
+def wantedAttrs (o : Opts) (s : CookieSpec) : List (Str × Option Str) :=
+  strA kDomain (s.domain.getD []) ++ optA kExpires imfDate (expUtc s) ++ flagA kHttpOnly s.httpOnly ++ optA kMaxAge intDec (maVal s) ++
+  flagA kPartitioned s.partitioned ++ strA kPath (s.path.getD []) ++ strA kSameSite (ssVal s) ++ flagA kSecure (isSecure o s)
+
+theorem morselAttrs_final (t : Nat) (o : Opts) (s : CookieSpec) : morselAttrs t (finalMorsel o s) = wantedAttrs o s := by
+  unfold morselAttrs wantedAttrs finalMorsel
+  congr 7
+  unfold expVal
+  cases expUtc s with
+  | none => rfl
+  | some c => simp only [expA, optA, strA, imfDate_ne_nil, Bool.false_eq_true, if_false]
+
+theorem nameOk_clean {n : Str} (h : nameOk n = true) : ';' ∉ n ∧ '=' ∉ n := by
+  obtain ⟨_, hall⟩ := nameOk_token h
+  exact ⟨fun e => (isLegal_ne (hall _ e).1).1 rfl, fun e => (isLegal_ne (hall _ e).1).2.1 rfl⟩
+
+/-- **cookie attributes exact**: for every call that `set_cookie` accepts (Domain / Path free of `;`, as RFC 6265 demands of an
+    attribute value), splitting the emitted line at `"; "` and each piece at its first `=` gives the cookie name, the coded value, and
+    exactly the list of requested attributes – nothing else, nothing twice, nothing bleeding from one attribute into another -/
+theorem cookie_attrs_exact (o : Opts) (s : CookieSpec) (line : Str) (h : setCookieLine o s = .ok line)
+    (hd : ';' ∉ s.domain.getD []) (hp : ';' ∉ s.path.getD []) :
+    parseLine line = (s.name, some (quote s.value), wantedAttrs o s) := by
+  obtain ⟨ha, rfl⟩ := (setCookieLine_ok_iff o s line).mp h
+  have ha' := ha
+  simp only [accepts, Bool.and_eq_true] at ha'
+  obtain ⟨⟨⟨⟨hn, _⟩, _⟩, _⟩, hs⟩ := ha'
+  obtain ⟨hn1, hn2⟩ := nameOk_clean hn
+  have := parse_output 0 (finalMorsel o s) hn1 hn2 (semi_not_mem_quote s.value)
+    (morsel_clean 0 _ hd hp (ssVal_clean hs) (by
+      intro x hx
+      have hx' : expVal s = .text x := hx
+      unfold expVal at hx'
+      cases hc : expUtc s with
+      | none => rw [hc] at hx'; simp at hx'
+      | some c =>
+        rw [hc] at hx'; simp only [ExpVal.text.injEq] at hx'; subst hx'
+        exact not_semi_of_dateChars (imfDate_dateChars c)))
+  rw [morselAttrs_final] at this
+  exact this
+
+/-! ### one attribute at a time -/
+/-- `none` = the attribute is absent, `some none` = present as a flag, `some (some v)` = present with value `v` -/
+def attr (as : List (Str × Option Str)) (k : Str) : Option (Option Str) := (as.find? fun a => a.1 == k).map (·.2)
+
+theorem attr_append (xs ys : List (Str × Option Str)) (k : Str) : attr (xs ++ ys) k = (attr xs k).or (attr ys k) := by
+  unfold attr; rw [List.find?_append]; cases xs.find? (fun a => a.1 == k) <;> rfl
+
+theorem attr_strA (k' v k : Str) : attr (strA k' v) k = if k' = k ∧ v ≠ [] then some (some v) else none := by
+  unfold attr strA
+  cases v with
+  | nil => simp
+  | cons c r => by_cases h : k' = k <;> simp [List.find?, h]
+
+theorem attr_flagA (k' : Str) (b : Bool) (k : Str) : attr (flagA k' b) k = if k' = k ∧ b = true then some none else none := by
+  unfold attr flagA
+  cases b with
+  | false => simp
+  | true => by_cases h : k' = k <;> simp [List.find?, h]
+
+theorem attr_optA {α : Type} (k' : Str) (f : α → Str) (x : Option α) (k : Str) :
+    attr (optA k' f x) k = if k' = k then x.map fun a => some (f a) else none := by
+  unfold attr optA
+  cases x with
+  | none => simp
+  | some a =>
+    by_cases h : k' = k
+    · simp [List.find?, h]
+    · have : (k' == k) = false := by simpa using h
+      simp [List.find?, h, this]
+
+theorem attr_domain (o : Opts) (s : CookieSpec) :
+    attr (wantedAttrs o s) kDomain = if s.domain.getD [] ≠ [] then some (some (s.domain.getD [])) else none := by
+  simp +decide [wantedAttrs, attr_append, attr_strA, attr_flagA, attr_optA]
+theorem attr_expires (o : Opts) (s : CookieSpec) : attr (wantedAttrs o s) kExpires = (expUtc s).map fun c => some (imfDate c) := by
+  simp +decide [wantedAttrs, attr_append, attr_strA, attr_flagA, attr_optA]
+theorem attr_httponly (o : Opts) (s : CookieSpec) : attr (wantedAttrs o s) kHttpOnly = if s.httpOnly = true then some none else none := by
+  simp +decide [wantedAttrs, attr_append, attr_strA, attr_flagA, attr_optA]
+theorem attr_maxage (o : Opts) (s : CookieSpec) : attr (wantedAttrs o s) kMaxAge = (maVal s).map fun n => some (intDec n) := by
+  simp +decide [wantedAttrs, attr_append, attr_strA, attr_flagA, attr_optA]
+theorem attr_partitioned (o : Opts) (s : CookieSpec) : attr (wantedAttrs o s) kPartitioned = if s.partitioned = true then some none else none := by
+  simp +decide [wantedAttrs, attr_append, attr_strA, attr_flagA, attr_optA]
+theorem attr_path (o : Opts) (s : CookieSpec) :
+    attr (wantedAttrs o s) kPath = if s.path.getD [] ≠ [] then some (some (s.path.getD [])) else none := by
+  simp +decide [wantedAttrs, attr_append, attr_strA, attr_flagA, attr_optA]
+theorem attr_samesite (o : Opts) (s : CookieSpec) : attr (wantedAttrs o s) kSameSite = if ssVal s ≠ [] then some (some (ssVal s)) else none := by
+  simp +decide [wantedAttrs, attr_append, attr_strA, attr_flagA, attr_optA]
+theorem attr_secure (o : Opts) (s : CookieSpec) : attr (wantedAttrs o s) kSecure = if isSecure o s = true then some none else none := by
+  simp +decide [wantedAttrs, attr_append, attr_strA, attr_flagA, attr_optA]
+/-- no other attribute is ever written -/
+theorem attr_other (o : Opts) (s : CookieSpec) (k : Str) (h : k ∉ allKeys) : attr (wantedAttrs o s) k = none := by
+  simp only [allKeys, List.mem_cons, List.not_mem_nil, or_false, not_or] at h
+  obtain ⟨h1, h2, h3, h4, h5, h6, h7, h8⟩ := h
+  simp [wantedAttrs, attr_append, attr_strA, attr_flagA, attr_optA, Ne.symm h1, Ne.symm h2, Ne.symm h3, Ne.symm h4, Ne.symm h5, Ne.symm h6, Ne.symm h7, Ne.symm h8]
+
+/-! ### the statements of the property, attribute by attribute -/
+/-- the attributes read back from the line of an accepted call are the requested ones -/
+theorem line_attr (o : Opts) (s : CookieSpec) (line : Str) (h : setCookieLine o s = .ok line)
+    (hd : ';' ∉ s.domain.getD []) (hp : ';' ∉ s.path.getD []) (k : Str) :
+    attr (parseLine line).2.2 k = attr (wantedAttrs o s) k := by
+  rw [cookie_attrs_exact o s line h hd hp]
+
+theorem accepts_maOk {s : CookieSpec} (h : accepts s = true) : maOk s = true := by
+  simp only [accepts, Bool.and_eq_true] at h; exact h.1.2
+
+theorem accepts_expOk {s : CookieSpec} (h : accepts s = true) : expOk s = true := by
+  simp only [accepts, Bool.and_eq_true] at h; exact h.1.1.2
+
+/-- **Max-Age iff `max_age` is given** – also for `max_age=0` (fix c04363d) – and its value is the decimal text of `int(max_age)` -/
+theorem attr_maxage_iff (o : Opts) (s : CookieSpec) (h : accepts s = true) :
+    (attr (wantedAttrs o s) kMaxAge).isSome = s.maxAge.isSome := by
+  rw [attr_maxage]
+  have := accepts_maOk h
+  unfold maOk at this
+  unfold maVal
+  cases hm : s.maxAge with
+  | none => rfl
+  | some a =>
+    rw [hm] at this; simp only at this ⊢
+    cases ht : a.toInt with
+    | none => rw [ht] at this; simp at this
+    | some n => rfl
+
+theorem attr_maxage_zero (o : Opts) (s : CookieSpec) (h : s.maxAge = some (.int 0)) :
+    attr (wantedAttrs o s) kMaxAge = some (some ['0']) := by
+  have h0 : intDec 0 = ['0'] := by
+    unfold intDec; simp only [Int.lt_irrefl, if_false, Int.toNat_zero]; rw [natDec]; rfl
+  rw [attr_maxage]; unfold maVal; rw [h]; simp only [MaxAge.toInt, Option.map_some, h0]
+
+/-- **expires iff given** (for an accepted call), and its text is the IMF-fixdate of the UTC time of the argument -/
+theorem attr_expires_iff (o : Opts) (s : CookieSpec) (h : accepts s = true) :
+    (attr (wantedAttrs o s) kExpires).isSome = s.expires.isSome := by
+  rw [attr_expires]
+  have := accepts_expOk h
+  unfold expOk at this
+  unfold expUtc
+  cases hm : s.expires with
+  | none => rfl
+  | some e =>
+    rw [hm] at this; simp only at this ⊢
+    cases ht : toUtc e with
+    | none => rw [ht] at this; simp at this
+    | some n => rfl
+
+/-- **Secure defaults from the app option**: the Secure flag is written iff `secure=True`, or `secure` was left `None` and
+    `resp_options.secure_cookies_by_default` is on; `secure=False` wins over the option -/
+theorem secure_defaults_from_option (o : Opts) (s : CookieSpec) :
+    attr (wantedAttrs o s) kSecure = some none ↔ (s.secure = some true ∨ (s.secure = none ∧ o.secureDefault = true)) := by
+  rw [attr_secure]
+  unfold isSecure
+  cases hs : s.secure with
+  | none => cases o.secureDefault <;> simp
+  | some b => cases b <;> simp
+
+theorem secure_absent_otherwise (o : Opts) (s : CookieSpec) :
+    attr (wantedAttrs o s) kSecure = none ↔ (s.secure = some false ∨ (s.secure = none ∧ o.secureDefault = false)) := by
+  rw [attr_secure]
+  unfold isSecure
+  cases hs : s.secure with
+  | none => cases o.secureDefault <;> simp
+  | some b => cases b <;> simp
+
+/-- **SameSite iff given, capitalised**: absent for `None` / `''`, otherwise exactly `Lax`, `Strict` or `None` according to the
+    argument read case-insensitively -/
+theorem attr_samesite_iff (o : Opts) (s : CookieSpec) (h : accepts s = true) :
+    (s.sameSite.getD [] = [] → attr (wantedAttrs o s) kSameSite = none) ∧
+    (∀ v, s.sameSite = some v → v ≠ [] → attr (wantedAttrs o s) kSameSite = some (some (capitalize (lower v))) ∧
+      (capitalize (lower v) = ['L', 'a', 'x'] ∨ capitalize (lower v) = ['S', 't', 'r', 'i', 'c', 't'] ∨ capitalize (lower v) = ['N', 'o', 'n', 'e'])) := by
+  have hs : ssOk s = true := by simp only [accepts, Bool.and_eq_true] at h; exact h.2
+  rw [attr_samesite]
+  constructor
+  · intro he
+    have : ssVal s = [] := by
+      unfold ssVal
+      cases hv : s.sameSite with
+      | none => rfl
+      | some v => rw [hv] at he; simp only [Option.getD_some] at he; subst he; rfl
+    simp [this]
+  · intro v hv hne
+    have hval : ssVal s = capitalize (lower v) := by
+      unfold ssVal; rw [hv]
+      cases v with
+      | nil => exact absurd rfl hne
+      | cons c r => rfl
+    have hne2 : capitalize (lower v) ≠ [] := by
+      cases v with
+      | nil => exact absurd rfl hne
+      | cons c r => simp [lower, capitalize]
+    have hm := ssVal_mem hs
+    rw [hval] at hm ⊢
+    refine ⟨by simp [hne2], ?_⟩
+    rcases hm with e | e | e | e
+    · exact absurd e hne2
+    · exact Or.inl e
+    · exact Or.inr (Or.inl e)
+    · exact Or.inr (Or.inr e)
+
+/-! ### rejections -/
+theorem setCookieLine_err {o : Opts} {s : CookieSpec} {e : Err} (h : (setCookie o s).2 = some e) : setCookieLine o s = .error e := by
+  unfold setCookieLine
+  have : setCookie o s = ((setCookie o s).1, some e) := by rw [← h]
+  rw [this]
+  generalize (setCookie o s).1 = j
+  cases j <;> rfl
+
+theorem ssOk_false {s : CookieSpec} {v : Str} (hv : s.sameSite = some v) (hne : v ≠ []) (hbad : lower v ∉ sameSiteWords) : ssOk s = false := by
+  unfold ssOk; rw [hv]
+  cases v with
+  | nil => exact absurd rfl hne
+  | cons c r => simpa using hbad
+
+/-- **an invalid `same_site` is rejected**: whatever the other arguments, the call raises and no line is produced -/
+theorem invalid_same_site_rejected (o : Opts) (s : CookieSpec) (v : Str) (hv : s.sameSite = some v) (hne : v ≠ [])
+    (hbad : lower v ∉ sameSiteWords) : ∃ e, setCookieLine o s = .error e := by
+  have : accepts s = false := by simp [accepts, ssOk_false hv hne hbad]
+  obtain ⟨e, he⟩ := setCookie_rejects (o := o) this
+  exact ⟨e, setCookieLine_err he⟩
+
+/-- … and when the rest of the call is acceptable the exception is the `ValueError` of the same_site check, raised after the other
+    attributes were written: the jar is left with a cookie that lacks SameSite and Partitioned -/
+theorem invalid_same_site_value_error (o : Opts) (s : CookieSpec) (v : Str) (hv : s.sameSite = some v) (hne : v ≠ [])
+    (hbad : lower v ∉ sameSiteWords) (hrest : accepts { s with sameSite := none } = true) :
+    setCookie o s = (.put (m6 o s), some .sameSite) := by
+  simp only [accepts, nameOk, Bool.and_eq_true, Bool.not_eq_true'] at hrest
+  obtain ⟨⟨⟨⟨⟨⟨⟨h1, h2⟩, h3⟩, h4⟩, h5⟩, h6⟩, h7⟩, _⟩ := hrest
+  have h6' : expOk s = true := h6
+  have h7' : maOk s = true := h7
+  rw [setCookie_spec]
+  simp only [h1, h2, h3, h4, h5, h6', h7', ssOk_false hv hne hbad, Bool.not_true, Bool.not_false, Bool.false_eq_true, if_false, if_true]
+
+/-- a name is accepted iff it is non-empty, made of `_LegalChars` other than the colon, and not (case-insensitively) one of the
+    attribute names `http.cookies` reserves -/
+theorem nameOk_iff (n : Str) : nameOk n = true ↔ (n ≠ [] ∧ (∀ c ∈ n, isLegal c = true ∧ c ≠ ':') ∧ lower n ∉ reservedKeys) := by
+  constructor
+  · intro h
+    obtain ⟨hne, hall⟩ := nameOk_token h
+    simp only [nameOk, Bool.and_eq_true, Bool.not_eq_true'] at h
+    obtain ⟨⟨⟨_, hc⟩, hr⟩, _⟩ := h
+    refine ⟨hne, fun c hc2 => ⟨(hall c hc2).1, ?_⟩, by simpa using hr⟩
+    intro e; subst e
+    have : n.contains ':' = true := by simpa using hc2
+    rw [this] at hc; exact absurd hc (by decide)
+  · intro ⟨hne, hall, hr⟩
+    simp only [nameOk, Bool.and_eq_true, Bool.not_eq_true']
+    refine ⟨⟨⟨?_, ?_⟩, by simpa using hr⟩, ?_⟩
+    · simp only [isAscii, List.all_eq_true, decide_eq_true_eq]
+      intro c hc; exact isLegal_ascii (hall c hc).1
+    · cases hcc : n.contains ':' with
+      | false => rfl
+      | true => exact absurd rfl (hall ':' (by simpa using hcc)).2
+    · simp only [isLegalKey, Bool.and_eq_true, Bool.not_eq_true', List.all_eq_true]
+      refine ⟨?_, fun c hc => (hall c hc).1⟩
+      cases n with
+      | nil => exact absurd rfl hne
+      | cons _ _ => rfl
+
+/-- **a name the request side cannot read back is rejected** (fix 9cb24a9 for the colon): if the name is empty or contains a
+    character of `_COOKIE_NAME_RESERVED_CHARS` – what makes `_parse_cookie_header` drop a pair –, or any non-ASCII character, then
+    `set_cookie` raises one of its name errors (all `KeyError`; `ValueError` only if the value is not ASCII either, which is
+    checked before `Morsel.set`), and it never stores a cookie -/
+theorem name_with_reserved_char_rejected (o : Opts) (s : CookieSpec)
+    (h : s.name = [] ∨ s.name.any Ck.isReserved = true ∨ isAscii s.name = false) :
+    ∃ e, (setCookie o s).2 = some e ∧ setCookieLine o s = .error e ∧
+      (e = .nameNotAscii ∨ e = .nameReservedChar ∨ e = .valueNotAscii ∨ e = .keyReserved ∨ e = .keyIllegal) ∧
+      (isAscii s.value = true → e ≠ .valueNotAscii) ∧ ∀ m, (setCookie o s).1 ≠ .put m := by
+  have hbad : isAscii s.name = true → s.name.contains ':' = false → isLegalKey s.name = false := by
+    intro h1 h2
+    rcases h with h | h | h
+    · rw [h]; rfl
+    · simp only [List.any_eq_true] at h
+      obtain ⟨c, hc, hr⟩ := h
+      cases hk : isLegalKey s.name with
+      | false => rfl
+      | true =>
+        have hl := legalKey_all hk c hc
+        have hcol : c ≠ ':' := by
+          intro e; subst e
+          have : s.name.contains ':' = true := by simpa using hc
+          rw [this] at h2; exact absurd h2 (by decide)
+        rw [isLegal_not_reserved hl hcol] at hr; exact absurd hr (by decide)
+    · rw [h] at h1; exact absurd h1 (by decide)
+  have key : ∀ e j, setCookie o s = (j, some e) → (∀ m, j ≠ .put m) →
+      (e = .nameNotAscii ∨ e = .nameReservedChar ∨ e = .valueNotAscii ∨ e = .keyReserved ∨ e = .keyIllegal) →
+      (isAscii s.value = true → e ≠ .valueNotAscii) →
+      ∃ e, (setCookie o s).2 = some e ∧ setCookieLine o s = .error e ∧
+        (e = .nameNotAscii ∨ e = .nameReservedChar ∨ e = .valueNotAscii ∨ e = .keyReserved ∨ e = .keyIllegal) ∧
+        (isAscii s.value = true → e ≠ .valueNotAscii) ∧ ∀ m, (setCookie o s).1 ≠ .put m := by
+    intro e j hj hput hkind hval
+    exact ⟨e, by rw [hj], setCookieLine_err (by rw [hj]), hkind, hval, by rw [hj]; exact hput⟩
+  cases h1 : isAscii s.name with
+  | false =>
+    exact key .nameNotAscii .keep (by rw [setCookie_spec]; simp only [h1, Bool.not_false, if_true]) (by intro m; simp) (by simp) (by simp)
+  | true =>
+  cases h2 : s.name.contains ':' with
+  | true =>
+    exact key .nameReservedChar .keep (by rw [setCookie_spec]; simp only [h1, h2, Bool.not_true, Bool.false_eq_true, if_false, if_true]) (by intro m; simp) (by simp) (by simp)
+  | false =>
+  by_cases h3 : isAscii s.value = false
+  · exact key .valueNotAscii .keep (by rw [setCookie_spec]; simp only [h1, h2, h3, Bool.not_true, Bool.not_false, Bool.false_eq_true, if_false, if_true])
+      (by intro m; simp) (by simp) (by simp [h3])
+  have h3 : isAscii s.value = true := by simpa using h3
+  cases h4 : reservedKeys.contains (lower s.name) with
+  | true =>
+    exact key .keyReserved .pop (by rw [setCookie_spec]; simp only [h1, h2, h3, h4, Bool.not_true, Bool.false_eq_true, if_false, if_true])
+      (by intro m; simp) (by simp) (by simp)
+  | false =>
+    exact key .keyIllegal .pop (by
+      rw [setCookie_spec]
+      simp only [h1, h2, h3, h4, hbad h1 h2, Bool.not_true, Bool.not_false, Bool.false_eq_true, if_false, if_true])
+      (by intro m; simp) (by simp) (by simp)
+
+/-! ### echo -/
+/-- **echo**: for every call `set_cookie` accepts, the cookie-pair of the emitted line, sent back in a `Cookie` header, is read by
+    the request API as exactly the name and the value that were passed in: `req.cookies == {name: value}` and
+    `req.get_cookie_values(name) == [value]` -/
+theorem cookie_echo_reads_back (o : Opts) (s : CookieSpec) (line : Str) (h : setCookieLine o s = .ok line) :
+    Ck.reqJar (some (cookiePair line)) = [(s.name, [s.value])] ∧
+    Ck.reqCookies (some (cookiePair line)) = [(s.name, s.value)] ∧
+    Ck.getCookieValues (some (cookiePair line)) s.name = some [s.value] := by
+  obtain ⟨ha, rfl⟩ := (setCookieLine_ok_iff o s line).mp h
+  have ha' := ha
+  simp only [accepts, Bool.and_eq_true] at ha'
+  obtain ⟨⟨⟨⟨hn, hv⟩, _⟩, _⟩, _⟩ := ha'
+  have hv256 : ∀ c ∈ s.value, c.toNat < 256 := by
+    simp only [isAscii, List.all_eq_true, decide_eq_true_eq] at hv
+    intro c hc; have := hv c hc; omega
+  have hp : cookiePair (outputString 0 (finalMorsel o s)) = kv s.name (quote s.value) :=
+    cookiePair_output 0 (finalMorsel o s) (nameOk_clean hn).1 (semi_not_mem_quote s.value)
+  have hj : Ck.reqJar (some (cookiePair (outputString 0 (finalMorsel o s)))) = [(s.name, [s.value])] := by
+    rw [hp, Ck.reqJar_some, parse_pair s.name s.value hn hv256]
+  refine ⟨hj, ?_, ?_⟩
+  · unfold Ck.reqCookies; rw [hj]; rfl
+  · unfold Ck.getCookieValues; rw [hj]; simp [Ck.lookup]
+
+/-! ### `unset_cookie` -/
+/-- the morsel `unset_cookie` leaves under the name: the previous one (if any) with the value emptied, Max-Age cleared (fix ae30cad),
+    expires one second in the past, SameSite / Domain / Path as given -/
+def unsetMorsel (prev : Option Morsel) (name sameSite : Str) (domain path : Option Str) : Morsel :=
+  { (prev.getD {}) with
+    key := name, value := [], coded := ['"', '"'], maxAge := none, expires := .rel (-1), samesite := sameSite,
+    domain := if (domain.getD []).isEmpty then (prev.getD {}).domain else domain.getD [],
+    path := if (path.getD []).isEmpty then (prev.getD {}).path else path.getD [] }
+
+theorem unsetCookie_spec (prev : Option Morsel) (name sameSite : Str) (domain path : Option Str) :
+    unsetCookie prev name sameSite domain path =
+      if reservedKeys.contains (lower name) then .error .keyReserved
+      else if !isLegalKey name then .error .keyIllegal
+      else .ok (unsetMorsel prev name sameSite domain path) := by
+  unfold unsetCookie morselSet
+  cases hr : reservedKeys.contains (lower name) with
+  | true => rfl
+  | false =>
+    cases hk : isLegalKey name with
+    | false => rfl
+    | true =>
+      simp only [Bool.not_true, Bool.false_eq_true, if_false]
+      congr 1
+      unfold unsetMorsel
+      cases domain with
+      | none => cases path with
+        | none => rfl
+        | some p => cases p <;> rfl
+      | some d => cases d with
+        | nil => cases path with
+          | none => rfl
+          | some p => cases p <;> rfl
+        | cons c r => cases path with
+          | none => rfl
+          | some p => cases p <;> rfl
+
+theorem attr_expA_ne (t : Nat) (e : ExpVal) (k : Str) (h : kExpires ≠ k) : attr (expA t e) k = none := by
+  cases e with
+  | unset => rfl
+  | text s => simp [expA, attr_strA, h]
+  | rel n =>
+    have : (kExpires == k) = false := by simpa using h
+    simp [expA, attr, List.find?, this]
+
+theorem attr_morsel_maxage (t : Nat) (m : Morsel) : attr (morselAttrs t m) kMaxAge = m.maxAge.map fun n => some (intDec n) := by
+  simp +decide [morselAttrs, attr_append, attr_strA, attr_flagA, attr_optA, attr_expA_ne]
+
+theorem attr_morsel_expires_rel (t : Nat) (m : Morsel) (n : Int) (h : m.expires = .rel n) :
+    attr (morselAttrs t m) kExpires = some (some (getdate ((t : Int) + n).toNat)) := by
+  have he : attr (expA t (.rel n)) kExpires = some (some (getdate ((t : Int) + n).toNat)) := by
+    simp +decide [expA, attr]
+  simp +decide [morselAttrs, attr_append, attr_strA, attr_flagA, attr_optA, h, he]
+
+theorem legalKey_clean {n : Str} (h : isLegalKey n = true) : ';' ∉ n ∧ '=' ∉ n :=
+  ⟨fun e => (isLegal_ne (legalKey_all h _ e)).1 rfl, fun e => (isLegal_ne (legalKey_all h _ e)).2.1 rfl⟩
+
+/-- **an unset cookie is expired**: whatever an earlier `set_cookie` left under the name (`prev`), the line `unset_cookie` produces at
+    time `t` (after 1970, before the year 10000) carries the empty value (`""`, read back as the empty string), no Max-Age, and an
+    Expires that an IMF-fixdate reader understands as the instant `t - 1`, i.e. in the past.  (Domain / Path / SameSite free of `;`.) -/
+theorem unset_cookie_is_expired (t : Nat) (prev : Option Morsel) (name sameSite : Str) (domain path : Option Str) (line : Str)
+    (ht : 1 ≤ t) (hy : t ≤ 253402300800)
+    (h : unsetCookieLine t prev name sameSite domain path = .ok line)
+    (hs : ';' ∉ sameSite) (hd : ';' ∉ (unsetMorsel prev name sameSite domain path).domain)
+    (hp : ';' ∉ (unsetMorsel prev name sameSite domain path).path) :
+    (parseLine line).1 = name ∧ (parseLine line).2.1 = some ['"', '"'] ∧ Ck.cookieValue ['"', '"'] = [] ∧
+    attr (parseLine line).2.2 kMaxAge = none ∧
+    ∃ txt c, attr (parseLine line).2.2 kExpires = some (some txt) ∧ parseDate txt = some c ∧ epochOf c = (t : Int) - 1 := by
+  unfold unsetCookieLine at h
+  rw [unsetCookie_spec] at h
+  cases hr : reservedKeys.contains (lower name) with
+  | true => rw [hr] at h; simp [Except.map] at h
+  | false =>
+    cases hk : isLegalKey name with
+    | false => rw [hr, hk] at h; simp [Except.map] at h
+    | true =>
+      rw [hr, hk] at h
+      simp only [Bool.not_true, Bool.false_eq_true, if_false, Except.map, Except.ok.injEq] at h
+      subst h
+      obtain ⟨k1, k2⟩ := legalKey_clean hk
+      have hpo := parse_output t (unsetMorsel prev name sameSite domain path) k1 k2 (show ';' ∉ (['"', '"'] : Str) by decide)
+        (morsel_clean t _ hd hp hs (by intro x hx; exact absurd hx (by simp [unsetMorsel])))
+      rw [hpo]
+      refine ⟨rfl, rfl, by decide, ?_, ?_⟩
+      · simp only [attr_morsel_maxage]; rfl
+      · have ht1 : ((t : Int) + -1).toNat = t - 1 := by omega
+        have hlt : t - 1 < 253402300800 := by omega
+        refine ⟨getdate (t - 1), gmtime (t - 1), ?_, ?_, ?_⟩
+        · rw [attr_morsel_expires_rel t (unsetMorsel prev name sameSite domain path) (-1) rfl, ht1]
+        · rw [getdate_eq_imfDate _ hlt]; exact parseDate_imfDate _ (gmtime_fourDigit _ hlt)
+        · rw [epoch_gmtime]; omega
+
+/-- the cookie-pair of an unset cookie, echoed back, reads as the name with the empty value -/
+theorem unset_cookie_echo (t : Nat) (prev : Option Morsel) (name sameSite : Str) (domain path : Option Str) (line : Str)
+    (hn : nameOk name = true) (h : unsetCookieLine t prev name sameSite domain path = .ok line) :
+    Ck.reqJar (some (cookiePair line)) = [(name, [[]])] := by
+  unfold unsetCookieLine at h
+  rw [unsetCookie_spec] at h
+  have hn' := hn
+  simp only [nameOk, Bool.and_eq_true, Bool.not_eq_true'] at hn'
+  obtain ⟨⟨_, hr⟩, hk⟩ := hn'
+  rw [hr, hk] at h
+  simp only [Bool.not_true, Bool.false_eq_true, if_false, Except.map, Except.ok.injEq] at h
+  subst h
+  rw [cookiePair_output t _ (legalKey_clean hk).1 (show ';' ∉ (['"', '"'] : Str) by decide), Ck.reqJar_some]
+  exact parse_pair name [] hn (by simp)
+
+/-! ### the jar -/
+/-- fix ae30cad: an accepted `set_cookie` replaces whatever the jar held under the name by the morsel of this call alone, emitted last -/
+theorem jar_set_fresh (o : Opts) (j : Jar) (s : CookieSpec) (h : accepts s = true) :
+    jarSetCookie o j s = (jarDel j s.name ++ [(s.name, finalMorsel o s)], none) := by
+  unfold jarSetCookie; rw [setCookie_accepts h]
+
+theorem jar_lines_after_set (t : Nat) (o : Opts) (j : Jar) (s : CookieSpec) (h : accepts s = true) :
+    jarLines t (jarSetCookie o j s).1 = jarLines t (jarDel j s.name) ++ [outputString 0 (finalMorsel o s)] := by
+  rw [jar_set_fresh o j s h]
+  simp only [jarLines, List.map_append, List.map_cons, List.map_nil]
+  congr 2
+  unfold outputString
+  rw [attrPieces_eq, attrPieces_eq, morselAttrs_final, morselAttrs_final]
+
+/-! ### non-vacuity: concrete calls that satisfy the hypotheses, and their lines -/
+/-- `set_cookie('sid', 'a b;c', domain='example.com', path='/', same_site='lAx')` with `secure_cookies_by_default = True` -/
+def exSpec : CookieSpec :=
+  { name := ['s', 'i', 'd'], value := ['a', ' ', 'b', ';', 'c'], domain := some "example.com".toList, path := some ['/'],
+    sameSite := some ['l', 'A', 'x'] }
+example : accepts exSpec = true := by decide
+example : ';' ∉ exSpec.domain.getD [] ∧ ';' ∉ exSpec.path.getD [] := by decide
+example : (setCookieLine ⟨true⟩ exSpec).toOption = some "sid=\"a b\\073c\"; Domain=example.com; HttpOnly; Path=/; SameSite=Lax; Secure".toList := by decide
+example : (setCookieLine ⟨false⟩ { exSpec with httpOnly := false, partitioned := true, secure := none }).toOption =
+    some "sid=\"a b\\073c\"; Domain=example.com; Partitioned; Path=/; SameSite=Lax".toList := by decide
+example : Ck.reqCookies (some (cookiePair "sid=\"a b\\073c\"; Domain=example.com; HttpOnly".toList)) = [(exSpec.name, exSpec.value)] := by decide
+/-- rejected names and values -/
+example : (setCookie {} { exSpec with name := ['n', ':', 'm'] }) = (.keep, some .nameReservedChar) := by decide
+example : (setCookie {} { exSpec with name := "Path".toList }) = (.pop, some .keyReserved) := by decide
+example : (setCookie {} { exSpec with name := ['a', ' ', 'b'] }) = (.pop, some .keyIllegal) := by decide
+example : (setCookie {} { exSpec with sameSite := some "bogus".toList }).2 = some .sameSite := by decide
+example : (setCookie {} { exSpec with maxAge := some (.str ['x']) }).2 = some .maxAge := by decide
+/-- `max_age=0`, `'007'`, `15.7` and `-0.9` -/
+example : attr (wantedAttrs {} { exSpec with maxAge := some (.int 0) }) kMaxAge = some (some ['0']) := attr_maxage_zero _ _ rfl
+example : maVal { exSpec with maxAge := some (.str ['0', '0', '7']) } = some 7 := by decide
+example : maVal { exSpec with maxAge := some (.flt 4419157134357299 281474976710656) } = some 15 := by decide
+example : maVal { exSpec with maxAge := some (.flt (-8106479329266893) 9007199254740992) } = some 0 := by decide
+/-- dates: 2024-02-29 was a Thursday; an aware datetime is moved to UTC (here across the year boundary) -/
+example : imfDate ⟨2024, 2, 29, 0, 0, 0⟩ = "Thu, 29 Feb 2024 00:00:00 GMT".toList := by
+  unfold imfDate; rw [natDec_4 _ (by decide) (by decide)]; decide
+example : toUtc ⟨⟨2024, 12, 31, 20, 30, 0⟩, some (-18000)⟩ = some ⟨2025, 1, 1, 1, 30, 0⟩ := by decide
+example : toUtc ⟨⟨9999, 12, 31, 23, 0, 0⟩, some (-3600)⟩ = none := by decide
+example : (⟨2024, 2, 29, 0, 0, 0⟩ : Civil).fourDigit = true := by decide
+example : gmtime 1790000000 = ⟨2026, 9, 21, 14, 13, 20⟩ := by decide
+/-- `unset_cookie('sid')` after the call above: value emptied, Max-Age gone, the other attributes kept -/
+example : (unsetCookie (some (finalMorsel ⟨true⟩ { exSpec with maxAge := some (.int 300) })) exSpec.name "Lax".toList none none).toOption.map
+    (fun m => (m.coded, m.maxAge, m.expires, m.secure, m.domain)) = some (['"', '"'], none, .rel (-1), true, "example.com".toList) := by decide
+
+/-- the hypotheses of `unset_cookie_is_expired` for `unset_cookie('sid', domain='example.com')` at 2026-09-21T14:13:20Z after the call above -/
+example : 1 ≤ 1790000000 ∧ 1790000000 ≤ 253402300800 ∧
+    ';' ∉ (unsetMorsel (some (finalMorsel ⟨true⟩ exSpec)) exSpec.name "Lax".toList (some "example.com".toList) none).domain ∧
+    ';' ∉ (unsetMorsel (some (finalMorsel ⟨true⟩ exSpec)) exSpec.name "Lax".toList (some "example.com".toList) none).path := by decide
+
+/-! ### the weekday -/
+/-- consecutive days have consecutive weekdays … -/
+theorem weekdayOfOrd_succ (n : Nat) : weekdayOfOrd (n + 1) = (weekdayOfOrd n + 1) % 7 := by unfold weekdayOfOrd; omega
+/-- … and 1970-01-01 was a Thursday (Monday = 0), which fixes the weekday of every day -/
+theorem weekday_epoch : weekdayOfOrd (ymd2ord 1970 1 1) = 3 ∧ ymd2ord 1970 1 1 = 719163 := by decide
+
 end Cw
